@@ -205,11 +205,16 @@ def symbolic_for(ex, st, stmt, it):
             k = V.fresh("k", V.Key)
             head.assume(z3.And(V.dict_has(it.d, k), z3.Not(z3.Select(done, k))))
             elem = V.mk_tuple([ops.key_to_val(k), V.dict_get(it.d, k)])
+            head.assume(ops.to_key(ops.key_to_val(k)) == k)
+            ex.component(head, it.d, V.dict_get(it.d, k))
             next_done = z3.Store(done, k, True)
             head.assume(z3.And(i >= 0, i < n))
         else:
             head.assume(z3.And(i >= 0, i < n))
             elem = V.VInt(i) if seq is None else z3.Select(V.seq_at(seq), i)
+            if seq is not None:
+                head.assume(ops._member(elem, seq))
+                ex.component(head, seq, elem)
             next_done = None
         if inv is not None:
             head.assume(inv(mkctx(head, i, done, elem)))
